@@ -116,4 +116,45 @@ structure keymasterdIDPCodeProtectedData where
   CodeChallengeMethod : Str
 deriving DecidableEq, Repr
 
+/-! ### cmd/keymasterd `validateUserTOTP` -/
+
+/-- `totpRateLimitInfo` (cmd/keymasterd/app.go); times are seconds (one reading of the clock per call, `now`) -/
+structure totpRateLimitInfo where
+  lastCheckTime : Int
+  failCount : Int
+  lastFailTime : Int
+  lockoutExpirationTime : Int
+deriving DecidableEq, Repr
+
+/-- the two fields of `totpAuthData` the function reads; the encrypted secret is opaque -/
+structure totpAuthData where
+  Enabled : Bool
+  EncryptedSecret : Nat
+deriving DecidableEq, Repr
+
+/-- the two fields of `userProfile` the function reads or writes (the map of devices as the list the loop ranges over) -/
+structure userProfile where
+  LastSuccessfullTOTPCounter : Int
+  TOTPAuthData : List totpAuthData
+deriving DecidableEq, Repr
+
+/-- what `validateUserTOTP` does besides answering, in program order -/
+inductive TotpEffect
+  | lock | unlock                                   -- totpLocalTateLimitMutex
+  | storeRate (r : totpRateLimitInfo)               -- state.totpLocalRateLimit[username] = r
+  | eval (otp key : Str) (counter period : Int)     -- a code is evaluated against one device's secret
+  | saveProfile (user : Str) (p : userProfile)      -- state.SaveUserProfile(username, profile)
+deriving DecidableEq, Repr
+
+/-- externals of `validateUserTOTP` -/
+structure TotpExt where
+  /-- `LoadUserProfile`: profile, ok, fromCache, error -/
+  loadProfile : Str → userProfile × Bool × Bool × Option Err
+  /-- `fmt.Sprintf("%06d", OTPValue)` -/
+  otpString : Int → Str
+  decrypt : Nat → Str × Option Err
+  /-- `totpMatchedCounter(code, secret, counter, period)`: the step the code belongs to, and whether it is valid at all -/
+  matched : Str → Str → Int → Int → Int × Bool
+  saveResult : Str → userProfile → Option Err
+
 end KM.GoTypes
